@@ -321,6 +321,9 @@ func (fx *FnCtx) finish(st *State) {
 		if len(disj) > 0 {
 			goal = "(or " + strings.Join(disj, " ") + " false)"
 		}
+		if mc.Guard != nil {
+			goal = "(=> " + fx.specBool(env, mc.Guard) + " " + goal + ")"
+		}
 		fx.emit(st, "must-call("+mc.Callee+")["+mc.Label+"]", "must-call", mc.Tags, goal, mc.Src, strings.Join(lastN(st.trace, 1), "; "))
 	}
 	for _, e := range fx.fc.Ensures {
